@@ -30,9 +30,9 @@ VARIABLES cap,
           handed, conn, engConn, onBehalf, willOk,              \* C04
           obsOf, obsIdx, obsRetAt, obsSt, nObs, dataTag, dataPend, dataPre, \* C02 registration state
           stage, seen, mustObs, annAtClose,                     \* C02 per-session close progress
-          lifeCalled
+          lifeCalled, tdAt
 vars == <<l, cap, arrived, arrDone, disab, cur, closedAt, ovfSeen, maxBacklog, pendRecv, pendFlush, handed, conn, engConn, onBehalf,
-          willOk, obsOf, obsIdx, obsRetAt, obsSt, nObs, dataTag, dataPend, dataPre, stage, seen, mustObs, annAtClose, lifeCalled>>
+          willOk, obsOf, obsIdx, obsRetAt, obsSt, nObs, dataTag, dataPend, dataPre, stage, seen, mustObs, annAtClose, lifeCalled, tdAt>>
 
 FS(v) == [s \in Sess |-> v]
 NoConn == [st |-> "idle", to |-> 0, vt |-> 0, sid |-> -1]
@@ -43,7 +43,7 @@ Canon(c) == /\ cap' = c
             /\ obsOf' = [g \in Tags |-> -1] /\ obsIdx' = [g \in Tags |-> 0] /\ obsRetAt' = [g \in Tags |-> 0] /\ obsSt' = [g \in Tags |-> "none"] /\ nObs' = 0
             /\ dataTag' = FS("-") /\ dataPend' = FS({}) /\ dataPre' = FS(FALSE)
             /\ stage' = FS("none") /\ seen' = FS(<<>>) /\ mustObs' = FS({}) /\ annAtClose' = FS(FALSE)
-            /\ lifeCalled' = FALSE
+            /\ lifeCalled' = FALSE /\ tdAt' = -1
 Init == /\ l = 1 /\ cap = 0
         /\ arrived = FS(0) /\ arrDone = FS(0) /\ disab = FS({}) /\ cur = FS(0) /\ closedAt = FS(-1) /\ ovfSeen = FS(FALSE) /\ maxBacklog = FS(0)
         /\ pendRecv = {} /\ pendFlush = {}
@@ -51,14 +51,19 @@ Init == /\ l = 1 /\ cap = 0
         /\ obsOf = [g \in Tags |-> -1] /\ obsIdx = [g \in Tags |-> 0] /\ obsRetAt = [g \in Tags |-> 0] /\ obsSt = [g \in Tags |-> "none"] /\ nObs = 0
         /\ dataTag = FS("-") /\ dataPend = FS({}) /\ dataPre = FS(FALSE)
         /\ stage = FS("none") /\ seen = FS(<<>>) /\ mustObs = FS({}) /\ annAtClose = FS(FALSE)
-        /\ lifeCalled = FALSE
+        /\ lifeCalled = FALSE /\ tdAt = -1
 EvReset == IsEv("Reset") /\ Canon(0)
 EvBegin == IsEv("Begin") /\ Canon(Ev.cap)
 
 C03U == UNCHANGED <<arrived, arrDone, disab, cur, closedAt, ovfSeen, maxBacklog, pendRecv, pendFlush>>
 C04U == UNCHANGED <<handed, conn, engConn, onBehalf, willOk>>
 C02U == UNCHANGED <<obsOf, obsIdx, obsRetAt, obsSt, nObs, dataTag, dataPend, dataPre, stage, seen, mustObs, annAtClose>>
-Keep == UNCHANGED <<cap, lifeCalled>>
+Keep == UNCHANGED <<cap, lifeCalled, tdAt>>
+\* a call that was blocked or in flight when destruction began returns within this much (virtual) time of its beginning
+\* (judged on the call's own deadline, which no other thread's time-out can move: once destruction has begun, a call may
+\* end with Timeout only if its deadline lay within TdBound of that moment anyway - it must be released by the teardown)
+TdBound == 3000
+TimeoutOk(callVt, to) == tdAt >= 0 => callVt + to <= tdAt + TdBound
 
 \* ---- C03 --------------------------------------------------------------------------------------------
 Max2(a, b) == IF a > b THEN a ELSE b
@@ -103,7 +108,7 @@ EvRecvRet ==
          [] Ev.res = "Timeout" ->          \* never before the timeout elapsed; never once overflow was reported (sticky);
                                            \* never while bytes that had fully arrived before the call are still undelivered
                                            \* (unless the cap may have dropped them, a flush owns the buffer, or teardown runs)
-              /\ Ev.vt - MyRecv[5] >= MyRecv[4] /\ ~ovfSeen[s]
+              /\ Ev.vt - MyRecv[5] >= MyRecv[4] /\ ~ovfSeen[s] /\ TimeoutOk(MyRecv[5], MyRecv[4])
               /\ (MyRecv[6] /\ Waiting(s)) => (maxBacklog[s] > cap \/ lifeCalled \/ \E f \in pendFlush : f[2] = s)
               /\ UNCHANGED <<cur, ovfSeen>>
          [] Ev.res = "ShuttingDown" -> lifeCalled /\ UNCHANGED <<cur, ovfSeen>>
@@ -148,7 +153,7 @@ EvConnRet ==
        THEN /\ Ev.s = c.sid /\ Ev.s \in engConn /\ Ev.s \notin onBehalf
             /\ handed' = handed \cup {Ev.s}
        ELSE /\ c.sid \notin willOk                           \* a session the application already saw closing belongs to it
-            /\ CASE Ev.err = "Timeout" -> Ev.vt - c.vt >= c.to /\ (c.sid = -1 \/ c.sid \in onBehalf)
+            /\ CASE Ev.err = "Timeout" -> Ev.vt - c.vt >= c.to /\ (c.sid = -1 \/ c.sid \in onBehalf) /\ TimeoutOk(c.vt, c.to)
                  [] Ev.err = "ShuttingDown" -> lifeCalled
                  [] OTHER -> TRUE
             /\ UNCHANGED handed
@@ -231,6 +236,7 @@ EvCloseRet == /\ IsEv("CloseRet") /\ stage[Ev.s] \in {"start", "global", "obs", 
 
 \* ---- C05 --------------------------------------------------------------------------------------------
 EvLifeCall == /\ IsEv("LifeCall") /\ lifeCalled' = TRUE /\ UNCHANGED cap /\ C03U /\ C04U /\ C02U
+              /\ tdAt' = IF Ev.op \in {"destroy", "destroy_in_cb"} /\ tdAt < 0 THEN Ev.vt ELSE tdAt
 EvLifeRet == IsEv("LifeRet") /\ C03U /\ C04U /\ C02U /\ Keep
 EvSendRet == IsEv("SendRet") /\ C03U /\ C04U /\ C02U /\ Keep
 EvListenRet == IsEv("ListenRet") /\ C03U /\ C04U /\ C02U /\ Keep
